@@ -25,7 +25,9 @@ CONSTANTS
   Tier,       \* "quick" | "thorough" | "sim": which row of the family table (budgets) is used
   Fams,       \* set of family names explored by this run; {"*"} = all families of the tier
   MaxSteps,   \* step bound of the semantics
-  Predict     \* TRUE: run the small-step semantics on every complete program
+  Predict,    \* TRUE: run the small-step semantics on every complete program
+  MaxMut,     \* Part IV (Mutate, C06/C07): at most this many type-level mutations per program (0: none)
+  Sugars      \* Part IV: XGo spellings the program is rendered with (subset of SugarNames)
 
 VARIABLES phase,  \* "gen" | "run" | "done"
           g,      \* generator state (partial program)
@@ -92,7 +94,8 @@ Lay(s, l)     == [s EXCEPT !.lay = l]
 
 -----------------------------------------------------------------------------
 \* Part I -- ProgGen
-Names == <<"a", "b", "c", "d", "e", "f", "g", "h", "u", "v", "w", "z">>
+Names == <<"a", "b", "c", "d", "e", "f", "g", "h", "u", "v", "w", "z", "aa", "bb", "cc", "dd", "ee", "ff", "gg", "hh",
+           "kk", "mm", "nn", "pp", "qq", "ss", "tt", "uu", "vv", "ww", "xx", "yy">>
 StrLits == {<<"a">>, <<"b", "c">>}
 
 \* scope entry: name, type, ro (not assignable: loop counters), u (must be used inside the block)
@@ -155,6 +158,19 @@ DeepBool(d) == IF d = 0 THEN Atoms("bool")
                       \cup {Bin(op, l, r) : op \in {"&&", "||"}, l \in S, r \in S}
                       \cup {Un("!", x) : x \in S}
 
+\* simulation only: one random typed tree of depth d per step (TLC!RandomElement)
+RECURSIVE RndInt(_), RndBool(_)
+RndInt(d) == IF d = 0 THEN RandomElement(Atoms("int"))
+             ELSE LET op == RandomElement({"+", "-", "*", "/", "%", "neg", "par"}) IN
+                  IF op = "neg" THEN Un("-", RandomElement(VarAtoms("int")))
+                  ELSE IF op = "par" THEN Bin(RandomElement({"-", "*", "/"}), RndInt(d - 1), Par(RndInt(d - 1)))
+                  ELSE Bin(op, RndInt(d - 1), RndInt(d - 1))
+RndBool(d) == IF d = 0 THEN RandomElement(Atoms("bool"))
+              ELSE LET op == RandomElement({"&&", "||", "!", "<", "==", ">=", "!="}) IN
+                   IF op \in {"&&", "||"} THEN Bin(op, RndBool(d - 1), RndBool(d - 1))
+                   ELSE IF op = "!" THEN Un("!", RndBool(d - 1))
+                   ELSE Bin(op, RndInt(d - 1), RndInt(d - 1))
+
 Depth == IF Has("deep2") THEN 2 ELSE IF Has("deep1") THEN 1 ELSE 0
 
 \* expression pools offered to statement holes
@@ -194,6 +210,8 @@ ShadowNames == {x \in VisNames : ~InTop(x) /\ EntOf(x).t \in {"int", "string"}}
 
 MenuBasic ==
   (IF Has("print") THEN {MI(PrintS(<<e>>), <<>>, 0) : e \in PrintPool} ELSE {})
+  \cup (IF Has("rnd3") THEN {MI(PrintS(<<RndInt(3)>>), <<>>, 0), MI(PrintS(<<RndBool(3)>>), <<>>, 0),
+                             MI(PrintS(<<RndInt(2), RndBool(2)>>), <<>>, 0)} ELSE {})
   \cup (IF Has("print2") THEN {MI(PrintS(<<VarE(x), VarE(y)>>), <<>>, 0) : x \in Vars("int"), y \in Vars("string")} ELSE {})
   \cup UNION {{MI(Decl(<<Fresh(1)>>, <<e>>), <<Ent(Fresh(1), T, FALSE, TRUE)>>, 1) : e \in Pool(T)} : T \in DeclTypes}
   \cup (IF Has("vardecl") THEN {MI(VarS(Fresh(1), T), <<Ent(Fresh(1), T, FALSE, TRUE)>>, 1) : T \in {"int", "string", "bool"}}
@@ -415,6 +433,8 @@ Finish(f, retE) ==  \* body of a frame when it is closed
   THEN SubSeq(f.body, 1, Len(f.body) - 1) \o use \o <<f.body[Len(f.body)]>>
   ELSE IF f.k = "func" /\ f.h.sig.rs # <<>> /\ f.h.sig.rs[1].x = ""
   THEN f.body \o use \o <<Ret(<<retE>>)>>
+  ELSE IF f.k = "func" /\ f.h.sig.rs # <<>>
+  THEN f.body \o use \o <<Ret(<<>>)>>           \* named results: bare return
   ELSE f.body \o use
 
 CaseS(es, body, ft) == St("case", "", IF ft THEN 1 ELSE 0, es, <<body>>, <<>>)
@@ -431,7 +451,7 @@ Compound(f, retE) ==
 AddStmts(f, ss, d, t) == [f EXCEPT !.body = @ \o ss, !.sc = @ \o d, !.term = t]
 
 GenSimple ==
-  /\ phase = "gen" /\ g.left > 0 /\ ~Top.term
+  /\ phase = "gen" /\ g.left > 0 /\ ~Top.term /\ g.fresh + 2 <= Len(Names)
   /\ (Top.k = "switch" => Top.lu)    \* a clause must be open
   /\ \E r \in SimpleMenu :
        LET lab == r.s.k \in {"break", "continue"} /\ r.s.s # ""
@@ -442,7 +462,7 @@ GenSimple ==
   /\ UNCHANGED <<phase, m>>
 
 GenOpen ==
-  /\ phase = "gen" /\ g.left > 0 /\ ~Top.term /\ NF <= MaxNest /\ ~InMapRange
+  /\ phase = "gen" /\ g.left > 0 /\ ~Top.term /\ NF <= MaxNest /\ ~InMapRange /\ g.fresh + 2 <= Len(Names)
   /\ (Top.k = "switch" => Top.lu)
   /\ \E o \in OpenMenu :
        LET nf1 == AddStmts(o.f, LoopPrefix(o.f.h), <<>>, FALSE) IN
@@ -728,10 +748,11 @@ Push(ss, K) == IF ss = <<>> THEN K ELSE <<Stmts(ss)>> \o K
 
 Discard == [d |-> "discard", xs |-> <<>>]
 FrameM(k, env, dest, isdef, named, rts) ==
-  [k |-> k, env |-> env, defers |-> <<>>, named |-> named, rts |-> rts, rets |-> <<>>, dest |-> dest, isdef |-> isdef]
+  [k |-> k, env |-> env, defers |-> <<>>, named |-> named, rts |-> rts, rets |-> <<>>, dest |-> dest, isdef |-> isdef,
+   byp |-> FALSE]   \* byp: this frame's deferred calls are being run by a panic (runtime.gopanic), not by its return
 
 Fail(mm)     == [mm EXCEPT !.status = "unk"]
-Panic(mm, v) == [mm EXCEPT !.pan = <<v>>, !.k = <<Simple("defers")>>]
+Panic(mm, v) == [mm EXCEPT !.pan = <<v>>, !.k = <<Simple("defers")>>, !.cs[1].byp = TRUE]
 
 \* bind names to fresh cells (":=", parameters)
 Bind(mm, xs, vs) ==
@@ -895,11 +916,12 @@ Exec(mm, s) ==
              THEN StartCall(mm, rs[1], [d |-> "asg", xs |-> [i \in 1..Len(ls) |-> ls[i].s]], mm.k) ELSE Fail(mm))
          ELSE IF HasCall(rs) \/ Len(ls) # Len(rs) THEN Fail(mm) ELSE
          LET l2 == EvalLList(ls, env, st0) IN
-         IF l2.r = "unk" THEN Fail(mm) ELSE
+         IF l2.r = "unk" THEN Fail(mm)
+         ELSE IF l2.r = "panic" THEN Panic([mm EXCEPT !.st = l2.st], l2.v)    \* gc checks the bounds of the left side first
+         ELSE
          LET r2 == EvalList(rs, env, l2.st) IN
          IF r2.r = "unk" THEN Fail(mm)
          ELSE IF r2.r = "panic" THEN Panic([mm EXCEPT !.st = r2.st], r2.v)
-         ELSE IF l2.r = "panic" THEN Panic([mm EXCEPT !.st = r2.st], l2.v)
          ELSE [mm EXCEPT !.st = WriteAll(r2.st, l2.refs, r2.vs)]
     [] s.k \in {"opasg", "inc"} ->
          LET l2 == EvalL(s.e[1], env, st0) IN
@@ -1051,11 +1073,13 @@ StepM(mm) ==
             LET d == fr.defers[Len(fr.defers)]
                 m1 == [mm EXCEPT !.cs[1].defers = SubSeq(@, 1, Len(@) - 1)]
             IN IF d.kind = "println" THEN [m1 EXCEPT !.out = Append(@, PrintLine(d.args, mm.st))]
-               ELSE Enter(m1, mm.st[d.f].f, mm.st[d.f].env, d.args, Discard, TRUE, <<Simple("defers")>>)
+               \* recover() works only in a deferred call run by the panic itself (not by a normal return
+               \* that happens while a panic is in flight)
+               ELSE Enter(m1, mm.st[d.f].f, mm.st[d.f].env, d.args, Discard, fr.byp /\ mm.pan # <<>>, <<Simple("defers")>>)
          ELSE IF Len(mm.cs) = 1 THEN   \* main returns (or dies)
             [mm EXCEPT !.status = "done", !.exit = IF mm.pan # <<>> THEN 2 ELSE 0, !.k = <<>>]
          ELSE IF mm.pan # <<>> THEN     \* still panicking: the caller starts running its deferred calls
-            [mm EXCEPT !.cs = Tail(@), !.env = fr.env, !.k = <<Simple("defers")>>]
+            [mm EXCEPT !.cs = [Tail(@) EXCEPT ![1].byp = TRUE], !.env = fr.env, !.k = <<Simple("defers")>>]
          ELSE LET vs == IF fr.named # <<>> THEN [i \in 1..Len(fr.named) |-> mm.st[fr.named[i]].v]
                         ELSE IF fr.rets # <<>> THEN fr.rets
                         ELSE [i \in 1..Len(fr.rts) |-> Zero(fr.rts[i])]
@@ -1084,9 +1108,55 @@ StoreOK == phase = "run" /\ m.status = "run" =>
 \* every program the model could not follow is counted, not hidden
 Predicted == phase = "done" /\ Predict => m.status \in {"done", "unk"}
 
+
+-----------------------------------------------------------------------------
+\* Part IV -- Mutate (C06, C07): near-miss programs.  A mutation is (kind, idx): the idx-th SITE of that
+\* kind in the pre-order walk of main's body (statement, then its expressions left to right, then its
+\* blocks in order).  TLC enumerates every (kind, idx) -- and every ordered pair for MaxMut = 2 -- over
+\* the sites the spec counts; the harness applies them to the same walk and reports its own count
+\* (a different count is drift: the binding is broken).
+MutKinds == {"chtype", "dropdecl", "dupdecl", "swapargs", "undef", "arity", "unusedvar", "unusedimport", "asgmismatch"}
+SiteS(st, kind) ==
+  CASE kind = "chtype" -> (st.k = "var" /\ st.s \in {"int", "string", "bool"}) \/
+                          (st.k = "decl" /\ Len(st.e) = 1 /\ Len(st.x) = 1 /\ st.e[1].k \in {"int", "str"})
+    [] kind \in {"dropdecl", "dupdecl"} -> st.k \in {"decl", "var", "const"} \/ (st.k = "func" /\ st.n = 0)
+    [] kind = "unusedvar" -> st.k # "case"
+    [] kind = "asgmismatch" -> st.k \in {"decl", "asg"}
+    [] OTHER -> FALSE
+SiteE(e, kind) ==
+  CASE kind = "swapargs" -> e.k \in {"plit", "append", "idx", "copy"} /\ Len(e.a) >= 2
+    [] kind = "undef" -> e.k = "var" /\ e.s # "_"
+    [] kind = "arity" -> e.k \in {"call", "mcall", "len", "cap", "append", "copy", "delete"}
+    [] OTHER -> FALSE
+RECURSIVE SumSeq(_)
+SumSeq(q) == IF q = <<>> THEN 0 ELSE q[1] + SumSeq(Tail(q))
+RECURSIVE CntE(_, _), CntS(_, _)
+CntE(e, kind) == (IF SiteE(e, kind) THEN 1 ELSE 0) + SumSeq([i \in 1..Len(e.a) |-> CntE(e.a[i], kind)])
+CntS(ss, kind) == SumSeq([i \in 1..Len(ss) |->
+                     (IF SiteS(ss[i], kind) THEN 1 ELSE 0)
+                     + SumSeq([j \in 1..Len(ss[i].e) |-> CntE(ss[i].e[j], kind)])
+                     + SumSeq([j \in 1..Len(ss[i].b) |-> CntS(ss[i].b[j], kind)])])
+Sites(prog, kind) == IF kind = "unusedimport" THEN 1 ELSE CntS(prog.body, kind)
+
+\* sugar variants: which XGo spellings the renderer uses (harness/cmd/gocoreh/render.go: Sugar)
+SugarNames == {"go", "echo", "script", "full"}
+
+MutStep ==
+  /\ phase = "mut" /\ Len(g.muts) < MaxMut
+  /\ \E kind \in MutKinds : \E i \in 1..Sites(g.prog, kind) :
+       \* a second mutation comes after the first in (kind, idx) order: unordered pairs once
+       /\ (g.muts # <<>> => (g.muts[1].kind # kind \/ g.muts[1].idx < i))
+       /\ g' = [g EXCEPT !.muts = Append(@, [kind |-> kind, idx |-> i, nsites |-> Sites(g.prog, kind)])]
+  /\ UNCHANGED <<phase, m>>
+MutDone ==
+  /\ phase = "mut"
+  /\ \E sg \in Sugars : g' = [g EXCEPT !.sugar = sg]
+  /\ phase' = "done"
+  /\ UNCHANGED m
+
 GenFinish ==
-  /\ phase = "gen" /\ NF = 1 /\ g.left = 0
-  /\ phase' = IF Predict THEN "run" ELSE "done"
+  /\ phase = "gen" /\ NF = 1 /\ (g.left = 0 \/ Top.term)
+  /\ phase' = IF Predict THEN "run" ELSE IF MaxMut > 0 \/ Sugars # {"go"} THEN "mut" ELSE "done"
   /\ g' = [g EXCEPT !.prog = Program]
   /\ m' = IF Predict THEN StartM(Program) ELSE m
 
@@ -1134,8 +1204,21 @@ Families ==
          FamRec("struct", FStruct, 3, 0, {"m"}, {5}),    FamRec("clos", FClos2, 3, 2, {"m"}, {1}),
          FamRec("defer", FDefer, 5, 2, {"m"}, {1}),      FamRec("panic", FPanic, 3, 2, {"m"}, {0, 5}),
          FamRec("shadow", FShadow \cup {"for3", "swap", "arith"}, 3, 2, {"m"}, {1}) }
+    [] Tier = "mut" -> {  \* small programs whose every mutation site (and pair of sites) is enumerated (C06, C07)
+         FamRec("assign", {"envint", "envstr", "asg", "opasg", "inc", "swap", "vardecl", "const", "declint", "arith"}, 1, 0, {"m"}, {2}),
+         FamRec("slice", FSlice, 1, 1, {"m"}, {5}),      FamRec("map", FMap, 1, 1, {"m"}, {5}),
+         FamRec("struct", FStruct, 1, 0, {"m"}, {5}),    FamRec("clos", FClos, 3, 2, {"m"}, {1}),
+         FamRec("ctl", FCtl, 1, 2, {"m"}, {1}),          FamRec("defer", FDefer, 3, 2, {"m"}, {1}),
+         FamRec("pair", {"envint", "inc", "vardecl"}, 1, 0, {"m"}, {2}) }
+    [] Tier = "mut2" -> {
+         FamRec("assign", FAssign, 1, 0, {"m"}, {2}),
+         FamRec("slice", FSlice, 2, 1, {"m"}, {5}),      FamRec("map", FMap, 2, 1, {"m"}, {5}),
+         FamRec("struct", FStruct, 2, 0, {"m"}, {5}),    FamRec("clos", FClos, 4, 2, {"m"}, {1}),
+         FamRec("ctl", FCtl, 2, 2, {"m"}, {1}),          FamRec("defer", FDefer, 4, 2, {"m"}, {1}),
+         FamRec("switch", FSwitch, 2, 1, {"m"}, {1}),    FamRec("shadow", FShadow, 2, 1, {"m"}, {1}),
+         FamRec("pair", {"envint", "envstr", "inc", "swap", "vardecl", "print", "asg"}, 1, 0, {"m"}, {2}) }
     [] OTHER -> {      \* "sim": budgets beyond the exhaustive ones, explored by seeded random derivations
-         FamRec("expr", FExpr2 \cup {"allops", "paren"}, 3, 0, {"m"}, {2, 3}),
+         FamRec("expr", {"envint", "envstr", "envbool", "rnd3", "asg", "opasg", "allops"}, 4, 0, {"m"}, {2, 3}),
          FamRec("assign", FAssign, 5, 0, {"m"}, {2}),
          FamRec("ctl", FCtl \cup {"cond2", "label"}, 6, 3, {"m", "o"}, {1}),
          FamRec("switch", FSwitch \cup {"case2", "for3", "inc", "label"}, 7, 3, {"m", "o"}, {1}),
@@ -1161,12 +1244,12 @@ Init == /\ phase = "gen"
         /\ \E f \in {f \in Families : f.name \in Fams \/ Fams = {"*"}} :
              g = [cfg |-> f, frames |-> <<[Frame("main", St("main", "", 0, <<>>, <<>>, <<>>), InitEnvOf(f.feat), {})
                                              EXCEPT !.body = InitBodyOf(f.feat)]>>,
-                  left |-> f.budget, fresh |-> 4, prog |-> <<>>]
+                  left |-> f.budget, fresh |-> 4, prog |-> <<>>, muts |-> <<>>, sugar |-> "go"]
         /\ m = InitM
 
 Gen == GenSimple \/ GenOpen \/ GenElse \/ GenCase \/ GenClose \/ GenFinish
 
-Next == Gen \/ Step \/ Halt
+Next == Gen \/ Step \/ Halt \/ MutStep \/ MutDone
 Spec == Init /\ [][Next]_vars
 
 Export == phase = "done" =>
@@ -1174,5 +1257,5 @@ Export == phase = "done" =>
         out |-> IF m.status = "done" THEN m.out ELSE <<>>,
         exit |-> IF m.status = "done" THEN m.exit ELSE 0,
         pan |-> IF m.status = "done" THEN [i \in 1..Len(m.pan) |-> PrintV(m.pan[i], m.st)] ELSE <<>>,
-        steps |-> m.steps])
+        steps |-> m.steps, muts |-> g.muts, sugar |-> g.sugar])
 =============================================================================
